@@ -104,6 +104,7 @@ def build(ctx):
                     kw = {"every": every, "rescale": rescale}
                     if with_xmax:
                         kw["x_max"] = xmax   # the right-hand axis limit: node positions must not depend on it
+                        kw["y_max"] = tm.var("y_max")   # likewise the upper axis limit
                     if given_ax:
                         ax = AxesV.__new__(AxesV)
                         ax.id = -1
@@ -111,7 +112,7 @@ def build(ctx):
                         kw["ax"] = ax
                     return [r], kw
 
-                outs = ctx.engine.run_paths(ctx.engine.func(PLOT + "plot_pseudopressure"), mk, pc=[tm.ge(nt, tm.const(2)), tm.ge(nx, tm.const(3)), tm.ge(every, tm.const(1)), tm.gt(xmax, tm.rconst(0))])
+                outs = ctx.engine.run_paths(ctx.engine.func(PLOT + "plot_pseudopressure"), mk, pc=[tm.ge(nt, tm.const(2)), tm.ge(nx, tm.const(3)), tm.ge(every, tm.const(1)), tm.gt(xmax, tm.rconst(0)), tm.gt(tm.var("y_max"), tm.rconst(0))])
                 if len(outs) != 1 or outs[0].kind != "return":
                     return be.Verdict(be.REFUTED, "SMT", witness={}, detail=f"plot_pseudopressure: {[(o.kind, o.value) for o in outs]}")
                 o = outs[0]
